@@ -161,14 +161,16 @@ def handleUrl (kind target : String) (out : List String) : String :=
         | some u => s!"ok {toHex u.path} {toHex u.rawPath} {toHex (escapedPath u)}"
       let impl := " ".intercalate out
       -- spec: the path RouteHTTP routes on is the request target's path text, untouched
-      let specOk : Bool := match m, out with
-        | some _, [_, _, rp, ep] => (if rp ≠ "x" then rp else ep) == toHex (beforeQuery raw)
-        | _, _ => true
+      let specOk : Bool := match raw, m, out with
+        | 47 :: _, some _, [_, _, rp, ep] => (if rp ≠ "x" then rp else ep) == toHex (beforeQuery raw)
+        | _, _, _ => true
       if ¬ specOk then s!"VIOL url path choice differs from the target's path text {toHex (beforeQuery raw)}"
       else if impl ≠ model then s!"DIFF model={model}"
       else match m with
         | none => "OK b=u-error"
-        | some u => if u.rawPath = [] then "OK nt b=u-path-only" else "OK nt b=u-rawpath"
+        | some u =>
+          let form := match raw with | 47 :: _ => "origin" | _ => "absolute"
+          if u.rawPath = [] then s!"OK nt b=u-{form}-path-only" else s!"OK nt b=u-{form}-rawpath"
 
 /-! ### r — routing through the real PatternRouter -/
 
@@ -317,7 +319,9 @@ def handleRoute (table method kind x : String) (out : List String) : String :=
           let entries := specEntries specT
           let allWf := entries.all fun e => wfB e.2.2
           -- the path the request carries: for `req` the target's path text, otherwise the chosen path
-          let reqPath := if kind = "req" then beforeQuery xb else pathChoice u
+          let reqPath := match kind, xb with
+            | "req", 47 :: _ => beforeQuery xb
+            | _, _ => pathChoice u
           let parseOk := (specEntries modelT).map (fun e => (e.1, e.2.2)) == entries.map (fun e => (e.1, e.2.2))
           match (if allWf then specJudge entries meth reqPath res else none) with
           | some why => s!"VIOL route {why}"
